@@ -107,6 +107,10 @@ Proof.
   rewrite Z.mod_add by lia. apply Z.mod_small. lia.
 Qed.
 
+Lemma modinv_full_spec : forall n x, 1 < n -> Z.gcd x n = 1 ->
+  0 <= modinv n x < n /\ (modinv n x * x) mod n = 1.
+Proof. intros n x Hn Hg. split; [apply modinv_range; lia | apply modinv_spec; assumption]. Qed.
+
 (* inverses modulo n are unique *)
 Lemma inv_unique_mod : forall n x a b, 0 < n ->
   (a * x) mod n = 1 mod n -> (b * x) mod n = 1 mod n -> a mod n = b mod n.
@@ -722,6 +726,14 @@ Qed.
 Lemma dec_none : forall c, validate_ct N c = false -> dec p q c = None.
 Proof. intros c Hv. unfold dec. cbv zeta. rewrite Hv. reflexivity. Qed.
 
+Lemma dec_none_iff : forall c, dec p q c = None <-> validate_ct N c = false.
+Proof.
+  intros c. split.
+  - intro H. destruct (validate_ct N c) eqn:E; [|reflexivity].
+    rewrite (dec_val c E) in H. discriminate.
+  - apply dec_none.
+Qed.
+
 Lemma dec_Some_inv : forall c m, dec p q c = Some m ->
   validate_ct N c = true /\ m = symmod N (Dfun p q c).
 Proof.
@@ -1043,6 +1055,13 @@ Proof.
   - exists K, D, al, be. repeat split; assumption.
 Qed.
 
+Lemma mta_exact_lprime : forall qq a b bn rk rs,
+  Z.gcd rk N = 1 -> Z.gcd rs N = 1 ->
+  0 <= a < qq -> 0 <= b < qq -> Z.abs bn <= 2 ^ lprime -> qq * qq + 2 ^ lprime <= (N - 1) / 2 ->
+  exists K D alpha beta,
+    mta N p q a b bn rk rs = Some (K, D, alpha, beta) /\ beta = - bn /\ alpha + beta = a * b.
+Proof. intros qq. exact (mta_exact qq (2 ^ lprime)). Qed.
+
 End Paillier.
 
 (* ---- ValidateN and the range side condition of MtA at the real parameter sizes ---- *)
@@ -1065,4 +1084,23 @@ Proof.
   assert (H2 : (2 ^ 2047 - 1) / 2 <= (n - 1) / 2) by (apply Z.div_le_mono; lia).
   assert (H3 : 2 ^ (256 + 256) + 2 ^ 1280 <= (2 ^ 2047 - 1) / 2) by (vm_compute; discriminate).
   lia.
+Qed.
+
+(* ---- small primes for the non-vacuity examples ---- *)
+Lemma small_prime : forall r, 1 < r -> (forall n, 1 <= n < r -> Z.gcd n r = 1) -> prime r.
+Proof.
+  intros r Hr H. apply prime_intro; [assumption|]. intros n Hn. apply Zgcd_1_rel_prime. apply H. assumption.
+Qed.
+Lemma prime_11 : prime 11.
+Proof.
+  apply small_prime; [lia|]. intros n Hn.
+  assert (Hc : n = 1 \/ n = 2 \/ n = 3 \/ n = 4 \/ n = 5 \/ n = 6 \/ n = 7 \/ n = 8 \/ n = 9 \/ n = 10) by lia.
+  repeat (destruct Hc as [->|Hc]; [reflexivity|]). subst n. reflexivity.
+Qed.
+Lemma prime_13 : prime 13.
+Proof.
+  apply small_prime; [lia|]. intros n Hn.
+  assert (Hc : n = 1 \/ n = 2 \/ n = 3 \/ n = 4 \/ n = 5 \/ n = 6 \/ n = 7 \/ n = 8 \/ n = 9 \/ n = 10
+               \/ n = 11 \/ n = 12) by lia.
+  repeat (destruct Hc as [->|Hc]; [reflexivity|]). subst n. reflexivity.
 Qed.
